@@ -124,6 +124,56 @@ def step (s : Lim) : Op → Lim × List Ev
       else (s, [Ev.bad])
   | .setTarget n => ({ s with T := n }, [])
 
+/-- **Composite step** (two things in one loop iteration, no quiescence in between): holder `i`
+leaves the block and — after its `__aexit__` has run but before any task it woke has run again —
+the task of waiter `j` is cancelled (e.g. the holder's completion and the `processing_timeout` of
+a queued request fall into the same iteration).  asyncio.Semaphore (3.12): a waiter whose future
+already has its result when the cancellation reaches it hands the permit on
+(`except CancelledError: if not fut.cancelled(): self._value += 1; self._wake_up_next()`); a
+waiter still queued just leaves. -/
+def stepExitCancel (s : Lim) (i j : Nat) : Lim × List Ev :=
+  if i ∈ s.holders then
+    let s1 := { s with holders := s.holders.erase i }
+    if s1.V > retireBound s1 then
+      let s2 := { s1 with V := s1.V - 1 }
+      if j ∈ s2.waiters then ({ s2 with waiters := s2.waiters.erase j }, [Ev.cancelled j])
+      else (s2, [Ev.bad])
+    else
+      let w := release ⟨s1, [], []⟩
+      if j ∈ w.woken then
+        -- j had been handed the permit: it passes it on, then the next woken task runs
+        finish (release { w with woken := w.woken.erase j, evs := w.evs ++ [Ev.cancelled j] })
+      else if j ∈ w.st.waiters then
+        -- j was still queued: it just leaves; its task notices right after the task woken by the
+        -- exit has run (that one was made runnable first), before the rest of the wake-up chain
+        let w0 : Work := { w with st := { w.st with waiters := w.st.waiters.erase j } }
+        match w0.woken with
+        | [] => finish { w0 with evs := w0.evs ++ [Ev.cancelled j] }
+        | x :: rest =>
+            let w1 := resume x { w0 with woken := rest }
+            finish { w1 with evs := w1.evs ++ [Ev.cancelled j] }
+      else
+        let r := finish w
+        (r.1, Ev.bad :: r.2)
+  else (s, [Ev.bad])
+
+/-- operation streams that may contain composite steps -/
+inductive Op2 where
+  | plain (op : Op)
+  | exitCancel (i j : Nat)
+  deriving Repr, DecidableEq
+
+def step2 (s : Lim) : Op2 → Lim × List Ev
+  | .plain op => step s op
+  | .exitCancel i j => stepExitCancel s i j
+
+def run2 (s : Lim) : List Op2 → Lim × List Ev
+  | [] => (s, [])
+  | op :: ops =>
+      let r := step2 s op
+      let r2 := run2 r.1 ops
+      (r2.1, r.2 ++ r2.2)
+
 /-- `Concurrency(n)`, any `n` (repaired class: `_sem_value = max(target, 1)` — at least one permit
 is in circulation from the start, so that an initial limit ≤ 0 refuses instead of parking) -/
 def init (n : Int) : Lim := ⟨n, max n 1, max n 1, 0, [], [], true⟩
